@@ -1,5 +1,4 @@
 // ======================================================================= Store::search (C02 C05 C06 C09 C12 C01)
-//@include ../common/search_contracts.rs
 // @item rust/core/src/search/score.rs :: impl Default for Scores
 impl Scores {
     fn default() -> (ret: Scores)
@@ -21,30 +20,27 @@ impl<'a> Hit<'a> {
 // receivers after RefCell stripping; in the repository the RefCell makes `&self` possible); `limit_sort_all` stands for the
 // `.limit_sort_unstable(limit, cmp)` stage (R30) with the selection contract LS that lane K checks on the real LimitSortIter
 // (bounded); `compare_hits` is the comparator proved in lane K.
+//@include ../common/limitsort.rs
+//@include ../common/gram_contracts.rs
+//@include ../common/store_contract.rs
 impl TrigramIndex {
+    // proved in unit grams (same pre- and postcondition predicates)
     #[verifier::external_body]
     pub fn prepare(&self, query: &TextRef, size: usize) -> (r: Vec<usize>)
-        ensures cands_ok(r@, self.len as int, size * 10),
+        requires self.wf(), text_ok(query), size <= 0x1000_0000,
+        ensures prepare_post(self.dict@, self.len as int, query.words@, query.chars@, size as int, r@),
     { unimplemented!() }
 }
 impl Store {
+    // proved in unit store (same pre- and postcondition predicates)
     #[verifier::external_body]
     pub fn top_ixs(&self) -> (r: Vec<usize>)
-        ensures cands_ok(r@, self.records@.len() as int, self.limit as int),
+        requires self.coherent(),
+        ensures r@ == spec_top(self.records@, self.limit), top_post(self.records@.len() as int, self.limit as int, r@),
     { unimplemented!() }
 }
 #[verifier::external_body]
 pub fn compare_hits(h1: &Hit, h2: &Hit) -> Ordering { unimplemented!() }
-#[verifier::external_body]
-pub fn limit_sort_all<'a, F: Fn(&Hit<'a>, &Hit<'a>) -> Ordering>(items: Vec<Hit<'a>>, limit: usize, cmp: F) -> (r: Vec<Hit<'a>>)
-    ensures r@.len() == (if items@.len() < limit { items@.len() } else { limit as nat }),
-        forall|k: int| 0 <= k < r@.len() ==> items@.contains(#[trigger] r@[k]),
-        // a selection: distinct positions of `items`
-        exists|idx: Seq<int>| selection(r@, items@, idx),
-{ unimplemented!() }
-pub open spec fn selection<T>(r: Seq<T>, items: Seq<T>, idx: Seq<int>) -> bool {
-    idx.len() == r.len() && idx.no_duplicates() && forall|k: int| 0 <= k < r.len() ==> 0 <= #[trigger] idx[k] < items.len() && r[k] == items[idx[k]]
-}
 // positions of the elements that a filter keeps
 pub open spec fn fmap<T>(s: Seq<T>, p: spec_fn(T) -> bool) -> Seq<int>
     decreases s.len()
@@ -101,6 +97,23 @@ pub open spec fn trace_ok(cands: Seq<usize>, hs: Seq<Hit>, recs: Seq<Record>) ->
     hs.len() == cands.len() && cands.no_duplicates()
     && forall|i: int| 0 <= i < cands.len() ==> (#[trigger] cands[i]) < recs.len() && scored(hs[i], &recs[cands[i] as int])
 }
+// where the candidates come from: the trigram index for a query with words (C05 C03), the top-rated list otherwise (C12)
+pub open spec fn cand_src(cands: Seq<usize>, st: &Store, query: &TextRef) -> bool {
+    (query.words@.len() > 0 ==> prepare_post(st.index.dict@, st.index.len as int, query.words@, query.chars@, st.limit as int, cands))
+    && (query.words@.len() == 0 ==> cands == spec_top(st.records@, st.limit) && top_post(st.records@.len() as int, st.limit as int, cands))
+}
+// C05: the record's title and the query have a gram in common (a trigram, or a one- or two-letter word start)
+pub open spec fn common_gram(r: &Record, query: &TextRef) -> bool {
+    exists|g: [char; 3]| #[trigger] has_gram(r.title.words@, r.title.chars@, g@) && has_gram(query.words@, query.chars@, g@)
+}
+// a well-formed text satisfies the index's size requirement: the word lengths add up to at most the text length
+proof fn lemma_text_ok(t: &TextRef, n: int)
+    requires text_wf(t), 0 <= n <= t.words@.len(),
+    ensures sum_len(t.words@, n) <= (if n == 0 { 0int } else { t.words@[n - 1].slice.1 as int }), sum_len(t.words@, n) >= 0,
+    decreases n
+{
+    if n > 0 { lemma_text_ok(t, n - 1); if n > 1 { assert(t.words@[n - 2].slice.1 <= t.words@[n - 1].slice.0); } }
+}
 proof fn lemma_highlightable(h: Hit, r: &Record)
     requires scored(h, r), record_ok(r)
     ensures words_wf(h.title.words@, h.title.source@.len() as int), matches_wf(h.rmatches@, h.title.words@), h.title.source@.len() <= 0x4000_0000, h.title.words@.len() <= 0x4000_0000,
@@ -109,6 +122,26 @@ proof fn lemma_highlightable(h: Hit, r: &Record)
         let i = choose|i: int| 0 <= i < h.rmatches@.len() && h.rmatches@[i] == m; assert(match_for_text(h.rmatches@[i], &h.title));
     }
 }
+// every position that passes the filter is in the filter's position map
+proof fn lemma_fmap_onto<T>(s: Seq<T>, p: spec_fn(T) -> bool)
+    ensures forall|i: int| 0 <= i < s.len() && p(#[trigger] s[i]) ==> fmap(s, p).contains(i)
+    decreases s.len()
+{
+    if s.len() > 0 {
+        lemma_fmap_onto(s.drop_last(), p);
+        let m = fmap(s.drop_last(), p);
+        assert forall|i: int| 0 <= i < s.len() && p(#[trigger] s[i]) implies fmap(s, p).contains(i) by {
+            if i < s.len() - 1 { assert(s.drop_last()[i] == s[i]); assert(m.contains(i)); let k = choose|k: int| 0 <= k < m.len() && m[k] == i; assert(fmap(s, p)[k] == i); }
+            else { assert(fmap(s, p)[m.len() as int] == i); }
+        }
+    }
+}
+// a filter that every element passes keeps everything
+proof fn lemma_filter_all<T>(s: Seq<T>, p: spec_fn(T) -> bool)
+    requires forall|i: int| 0 <= i < s.len() ==> p(#[trigger] s[i])
+    ensures s.filter(p) == s
+    decreases s.len()
+{ reveal(Seq::filter); if s.len() > 0 { lemma_filter_all(s.drop_last(), p); assert(s.drop_last().push(s.last()) =~= s); } }
 proof fn lemma_filter_push<T>(s: Seq<T>, x: T, p: spec_fn(T) -> bool)
     ensures s.push(x).filter(p) == (if p(x) { s.filter(p).push(x) } else { s.filter(p) })
 { reveal(Seq::filter); assert(s.push(x).drop_last() =~= s); }
@@ -128,7 +161,7 @@ proof fn lemma_filter_member<T>(s: Seq<T>, p: spec_fn(T) -> bool)
 }
 impl Store {
     pub open spec fn srch_ok(&self) -> bool {
-        self.index.len == self.records@.len() && self.records@.len() <= 0x4000_0000 && self.limit <= 0x1000_0000
+        self.coherent() && self.limit <= 0x1000_0000
         && self.dividers.0@.len() <= 0x10000 && self.dividers.1@.len() <= 0x10000
         && forall|k: int| 0 <= k < self.records@.len() ==> record_ok(#[trigger] &self.records@[k])
     }
@@ -146,25 +179,34 @@ impl Store {
             // C06 / C12: the cut happens AFTER the filter: the list has min(limit, number of candidates that pass) entries
             // and no candidate is returned twice
             exists|cands: Seq<usize>, hs: Seq<Hit>, pos: Seq<int>| #[trigger] trace_ok(cands, hs, self.records@) && #[trigger] sel_ok(ret@, hs, pos, query, self.dividers.0@, self.dividers.1@)
-                && ret@.len() == (if hs.filter(passes(query)).len() < self.limit { hs.filter(passes(query)).len() } else { self.limit as nat }), // [C06 C12]
+                && ret@.len() == (if hs.filter(passes(query)).len() < self.limit { hs.filter(passes(query)).len() } else { self.limit as nat }) // [C06 C12]
+                // the candidates are the index's answer for the query (C05 C03 C04) or the top-rated list (C12)
+                && cand_src(cands, self, query) // [C05 C03 C04 C12 C06]
+                // and when the passing candidates fit under the limit every one of them is returned
+                && (hs.filter(passes(query)).len() <= self.limit ==> forall|i: int| 0 <= i < hs.len() && hm_spec(query, &#[trigger] hs[i]) ==> pos.contains(i)), // [C06 C03 C04]
+            // C05: a hit for a query with words is a record whose title shares a gram with the query
+            query.words@.len() > 0 ==> forall|k: int| 0 <= k < ret@.len() ==> exists|j: int| 0 <= j < self.records@.len() && (#[trigger] ret@[k]).id == self.records@[j].id && common_gram(&self.records@[j], query), // [C05]
+            // C12: a query without words returns min(limit, number of records) entries
+            query.words@.len() == 0 ==> ret@.len() == (if self.records@.len() < self.limit { self.records@.len() } else { self.limit as nat }), // [C12]
     {
         let dividers = self.dividers();
+        proof { lemma_text_ok(query, query.words@.len() as int); }
         let ixs = if query.words.len() > 0 { self.index.prepare(&query, self.limit) } else { self.top_ixs() };
         let ghost recs = self.records@;
         let ghost mut hs: Seq<Hit> = Seq::empty();
-        proof { assert(forall|k: int| 0 <= k < ixs@.len() ==> #[trigger] ixs@[k] < recs.len()); }
+        proof { assert(cand_src(ixs@, self, query)); assert(forall|k: int| 0 <= k < ixs@.len() ==> #[trigger] ixs@[k] < recs.len()); }
         let mut __items0: Vec<Hit<'a>> = Vec::new();
-        let mut __i0 = 0;
-        while __i0 < ixs.len()
-            invariant __i0 <= ixs@.len(), recs == self.records@, self.srch_ok(), text_wf(query), text_small(query),
+        let mut __p0 = 0;
+        while __p0 < ixs.len()
+            invariant __p0 <= ixs@.len(), recs == self.records@, self.srch_ok(), text_wf(query), text_small(query),
                 forall|k: int| 0 <= k < ixs@.len() ==> #[trigger] ixs@[k] < recs.len(),
                 forall|m: int| 0 <= m < __items0@.len() ==> good_hit(#[trigger] __items0@[m], recs, query),
-                hs.len() == __i0, __items0@ == hs.filter(passes(query)), ixs@.no_duplicates(),
+                hs.len() == __p0, __items0@ == hs.filter(passes(query)), ixs@.no_duplicates(),
                 forall|i: int| 0 <= i < hs.len() ==> scored(#[trigger] hs[i], &recs[ixs@[i] as int]),
-            decreases ixs@.len() - __i0,
+            decreases ixs@.len() - __p0,
         {
-            let __ix = __i0;
-            __i0 += 1;
+            let __ix = __p0;
+            __p0 += 1;
             let ix = ixs[__ix];
             proof { assert(record_ok(&recs[ix as int])); }
             let __cur = { Hit::from_record(&self.records[ix]) };
@@ -205,18 +247,32 @@ impl Store {
             }
         }
         proof { assert forall|m: int| 0 <= m < __sel0@.len() implies good_hit(#[trigger] __sel0@[m], recs, query) by { let i = choose|i: int| 0 <= i < __items0@.len() && __items0@[i] == __sel0@[m]; } }
+        proof {
+            // when everything that passed fits under the limit, the selection keeps every passing candidate
+            if hs.filter(passes(query)).len() <= self.limit {
+                lemma_selection_full(__sel0@, __items0@, idx);
+                lemma_fmap_onto(hs, passes(query));
+                assert forall|i: int| 0 <= i < hs.len() && hm_spec(query, &#[trigger] hs[i]) implies pos.contains(i) by {
+                    let m = choose|m: int| 0 <= m < fm.len() && fm[m] == i;
+                    assert(idx.contains(m));
+                    let k = choose|k: int| 0 <= k < idx.len() && idx[k] == m;
+                    assert(pos[k] == i);
+                }
+            }
+        }
+        let ghost covered: bool = forall|i: int| 0 <= i < hs.len() && hm_spec(query, &#[trigger] hs[i]) ==> pos.contains(i);
         let mut __out0: Vec<SearchResult> = Vec::new();
-        let mut __j0 = 0;
-        while __j0 < __sel0.len()
-            invariant __j0 <= __sel0@.len(), __sel0@.len() <= self.limit, trace_ok(ixs@, hs, recs), __sel0@.len() == (if hs.filter(passes(query)).len() < self.limit { hs.filter(passes(query)).len() } else { self.limit as nat }), __out0@.len() == __j0, recs == self.records@, pos.len() == __sel0@.len(), pos.no_duplicates(),
+        let mut __q0 = 0;
+        while __q0 < __sel0.len()
+            invariant __q0 <= __sel0@.len(), __sel0@.len() <= self.limit, trace_ok(ixs@, hs, recs), __sel0@.len() == (if hs.filter(passes(query)).len() < self.limit { hs.filter(passes(query)).len() } else { self.limit as nat }), __out0@.len() == __q0, recs == self.records@, pos.len() == __sel0@.len(), pos.no_duplicates(), cand_src(ixs@, self, query), hs.filter(passes(query)).len() <= self.limit ==> covered,
                 forall|k: int| 0 <= k < __sel0@.len() ==> 0 <= #[trigger] pos[k] < hs.len() && hm_spec(query, &hs[pos[k]]) && __sel0@[k] == hs[pos[k]],
                 self.srch_ok(), dividers.0@ == self.dividers.0@, dividers.1@ == self.dividers.1@,
                 forall|m: int| 0 <= m < __sel0@.len() ==> good_hit(#[trigger] __sel0@[m], recs, query),
                 forall|k: int| 0 <= k < __out0@.len() ==> (#[trigger] __out0@[k]).id == __sel0@[k].id && __out0@[k].title@ == shown(__sel0@[k], self.dividers.0@, self.dividers.1@),
-            decreases __sel0@.len() - __j0,
+            decreases __sel0@.len() - __q0,
         {
-            let __jx = __j0;
-            __j0 += 1;
+            let __jx = __q0;
+            __q0 += 1;
             let hit = &__sel0[__jx];
             proof {
                 assert(good_hit(*hit, recs, query));
@@ -231,6 +287,20 @@ impl Store {
                 let h = __sel0@[k]; assert(good_hit(h, recs, query));
             }
             assert(sel_ok(__out0@, hs, pos, query, self.dividers.0@, self.dividers.1@));
+            // C05: a returned record shares a gram with the query (index answer + index content invariant)
+            if query.words@.len() > 0 {
+                assert forall|k: int| 0 <= k < __out0@.len() implies exists|j: int| 0 <= j < recs.len() && (#[trigger] __out0@[k]).id == recs[j].id && common_gram(&recs[j], query) by {
+                    let c = ixs@[pos[k]];
+                    let j = c as int;
+                    assert(shares(self.index.dict@, query.words@, query.chars@, j));
+                    let g = choose|g: [char; 3]| has_gram(query.words@, query.chars@, g@) && #[trigger] posted(self.index.dict@, g, j);
+                    assert(has_gram(recs[j].title.words@, recs[j].title.chars@, g@));
+                    assert(scored(hs[pos[k]], &recs[j]));
+                }
+            } else {
+                // C12: every candidate passes the filter
+                lemma_filter_all(hs, passes(query));
+            }
         }
         __out0
     }
